@@ -114,6 +114,11 @@ def reflective(prop, tier, seed, oracle_module, level_note, extra_obligations=No
                     obl.append(r['file'])
         # hand-written property files with dependencies between them: built in the given order
         for f in (seq_obligations or []):
+            if isinstance(f, (list, tuple)):          # a group of mutually independent files: built in parallel
+                for r in coqbuild.build_many(list(f), timeout=2400):
+                    ores.append(r)
+                obl += list(f)
+                continue
             r = coqbuild.build_one(f, timeout=1800)
             ores.append(r)
             obl.append(f)
@@ -296,9 +301,11 @@ def check_C20(tier, seed):
                       'the matrices of the nfp = k and nfp = 1 declarations replicate (Dspec_replicates, odd k). '
                       'Interpolation (theories/InterpKernel.v, odd n): off the nodes the barycentric formula of fourier_interpolation IS the Dirichlet-kernel interpolant, it reproduces cos(p x), sin(p x), p <= n/2 and every trigonometric '
                       'polynomial of that degree exactly at every x, takes the sample values at the nodes and is continuous; the interpolants of the nfp = k and nfp = 1 declarations have the same range. '
+                      'Even n (theories/EvenKernel.v): over the reals 1/tan(pi/2) = 0, so the conditional even-n structure theorems hold outright; entry formula with cot, kernel form, exact differentiation of cos(p x) for p <= n/2 and sin(p x) for p < n/2, '
+                      'exact interpolation of the same; the Nyquist sine (identically 0 on the grid) is annihilated by both, which is inherent to an even grid and stated explicitly (Dspec_even_nyquist_sin, interp_even_nyquist_sin). '
                       'NOT proved (harness only): Newton convergence on smooth well-posed systems; floats are idealised as reals in the exactness statements.',
-                      gprops=False, seq_obligations=[], theory_obligations=['Newton', 'DiffMat', 'Bracket', 'TrigSum', 'DiffKernel', 'InterpKernel'],
-                      theorems=['InterpKernel.interp_is_kernel', 'InterpKernel.interp_exact_trigpoly', 'InterpKernel.kinterp_node', 'InterpKernel.kinterp_continuous', 'InterpKernel.interp_replicates', 'DiffKernel.Dspec_entry', 'DiffKernel.Dspec_kernel', 'DiffKernel.Dspec_exact_cos', 'DiffKernel.Dspec_exact_sin', 'DiffKernel.Dspec_exact_trigpoly', 'DiffKernel.trigpoly_derive',
+                      gprops=False, seq_obligations=[], theory_obligations=['Newton', 'DiffMat', 'Bracket', 'TrigSum', 'DiffKernel', 'InterpKernel', 'EvenKernel'],
+                      theorems=['EvenKernel.Dspec_even_entry', 'EvenKernel.Dspec_even_exact_trigpoly', 'EvenKernel.Dspec_even_nyquist_sin', 'EvenKernel.interp_even_is_kernel', 'EvenKernel.interp_even_exact_trigpoly', 'InterpKernel.interp_is_kernel', 'InterpKernel.interp_exact_trigpoly', 'InterpKernel.kinterp_node', 'InterpKernel.kinterp_continuous', 'InterpKernel.interp_replicates', 'DiffKernel.Dspec_entry', 'DiffKernel.Dspec_kernel', 'DiffKernel.Dspec_exact_cos', 'DiffKernel.Dspec_exact_sin', 'DiffKernel.Dspec_exact_trigpoly', 'DiffKernel.trigpoly_derive',
                                 'DiffKernel.Dspec_replicates', 'DiffMat.DR_antisym', 'DiffMat.DR_circulant', 'DiffMat.DR_rowsum', 'DiffMat.DR_shift', 'DiffMat.DR_rev',
                                 'Newton.never_worse_than_initial', 'Newton.accepted_chain_decreasing', 'Newton.no_warning_means_best_small'])
 
@@ -477,19 +484,19 @@ def check_C10(tier, seed):
                       'the a = t slice is symmetric up to the explicit current term 2 sG spsi I2 kappa (from the sigma equation), L_grad_grad_B * inverse = 1, inverse^2 * 4 B0 = Frobenius norm, the scalar is the maximum of the profile; '
                       'grad_grad_B_tensor_cartesian is the rotation about Z of what grad_grad_B_tensor_cylindrical returns. '
                       'REFUTED as stated and recorded as known findings: grad_grad_B_tensor_cylindrical() returns the Frenet-frame array (theorem C10_cylindrical_is_frenet; the only test of it pins exactly that), so the Cartesian variant '
-                      'is the rotation of Frenet components. Vacuum full symmetry / harmonicity: props/C10_vacuum.v when present, otherwise harness only (measured on resolved grids). '
+                      'is the rotation of Frenet components. In vacuum (I2 = p2 = 0) the tensor is fully symmetric and harmonic (props/C10_vacuum*.v: from the sigma equation, its derivative, and the two O(r^2) ODEs entering as explicit certificates a*E1 + b*E2). '
                       'Hypotheses: admissibility (sG^2 = spsi^2 = 1, etabar, curvature, d_varphi_d_phi non-zero, B0 > 0, |G0|/B0 > 0), constant scalar inputs, sigma equation solved.',
-                      gprops=False, seq_obligations=['props/C10_spec.v', 'props/C10.v'] + (['props/C10_vacuum.v'] if os.path.exists(os.path.join(COQ, 'props', 'C10_vacuum.v')) else []),
+                      gprops=False, seq_obligations=['props/C10_spec.v', 'props/C10_common.v', 'props/C10_vacuum_common.v', ['props/C10.v', 'props/C10_vacuum_Bt.v', 'props/C10_vacuum_ode.v'], 'props/C10_vacuum.v'],
                       ncorr=(6 if tier == 'quick' else 40),
                       theorems=['C10_two_ways', 'C10_sym12', 'C10_divfree', 'C10_tangent_contraction', 'C10_scale_length', 'C10_cylindrical_is_frenet', 'C10_cartesian_is_rotation_of_that',
-                                'C10_cartesian_rotates_frenet', 'C10_tangent_slice_curl', 'C10_vacuum_tangent_slice_symmetric'])
+                                'C10_cartesian_rotates_frenet', 'C10_tangent_slice_curl', 'C10_vacuum_tangent_slice_symmetric', 'C10_vacuum.C10_vacuum', 'C10_vacuum.C10_sym23', 'C10_vacuum.C10_harmonic'])
 
 
 # hand-written theories each check depends on (others are not built, so work in progress elsewhere cannot disturb it)
 NEEDS = {
     'C08': ['Expr', 'Equiv', 'Dim'], 'C07': ['Expr', 'Equiv', 'Sign', 'Shift', 'Shallow', 'DiffMat'], 'C05': ['Expr', 'Equiv', 'Sign', 'Shift', 'Shallow', 'DiffMat'],
     'C04': ['Expr', 'Shallow'], 'C11': ['Expr', 'Shallow'], 'C13': ['Expr', 'Shallow', 'Quadrant'], 'C19': ['Expr', 'Equiv', 'Dim', 'Sign'], 'C17': ['Expr', 'Effects'], 'C12': ['Expr', 'Equiv', 'Dim', 'Sign', 'Shallow', 'RootSelect'], 'C16': ['Expr', 'Effects', 'ObjModel'], 'C09': ['Expr', 'Shallow', 'Pipeline'], 'C03': ['Expr', 'Shallow', 'Pipeline'], 'C06': ['Expr', 'Equiv', 'Sign', 'Shift', 'Replicate', 'DiffMat', 'TrigSum', 'DiffKernel', 'Bracket', 'InterpKernel'], 'C14': ['Expr', 'Shallow', 'TrigSum'], 'C15': ['Expr', 'Shallow', 'TrigSum', 'VmecEmit'], 'C18': ['Expr', 'ObjModel'], 'C10': ['Expr', 'Shallow'], 'C01': ['Expr', 'Shallow', 'Series'], 'C02': ['Expr', 'Shallow', 'Newton'],
-    'C20': ['Expr', 'Equiv', 'Sign', 'Shift', 'Replicate', 'DiffMat', 'Newton', 'Bracket', 'TrigSum', 'DiffKernel', 'InterpKernel'],
+    'C20': ['Expr', 'Equiv', 'Sign', 'Shift', 'Replicate', 'DiffMat', 'Newton', 'Bracket', 'TrigSum', 'DiffKernel', 'InterpKernel', 'EvenKernel'],
 }
 CHECKS = {'C10': check_C10, 'C06': check_C06, 'C14': check_C14, 'C15': check_C15, 'C18': check_C18, 'C12': check_C12, 'C16': check_C16, 'C17': check_C17, 'C03': check_C03, 'C19': check_C19, 'C09': check_C09, 'C13': check_C13, 'C11': check_C11, 'C02': check_C02, 'C20': check_C20, 'C04': check_C04, 'C08': check_C08, 'C07': check_C07, 'C05': check_C05}
 
